@@ -260,6 +260,13 @@ func (v *VerifPool) LockedIdle(fn func(idle []*VerifWire)) {
 	fn(ws)
 }
 
+// TimerOn reports p.timerOn (the idle clean-up timer is armed and its function has not finished).
+func (v *VerifPool) TimerOn() bool {
+	v.p.cond.L.Lock()
+	defer v.p.cond.L.Unlock()
+	return v.p.timerOn
+}
+
 // Snapshot returns size, len(list), down and the ids of the idle wires (bottom of the stack first).
 func (v *VerifPool) Snapshot() (size int, idle []int, down bool) {
 	v.p.cond.L.Lock()
